@@ -16,7 +16,7 @@ from symx.sx import Ob
 from harness import cirlib, netlib, C17
 
 PID = 'C20'
-SRC = '/repo/src/CircuitCalculator'
+SRC = driver.REPO_SRC + '/CircuitCalculator'
 SCAN_DIRS = ['Network', 'Circuit', 'SignalProcessing', 'dump_load.py']
 
 
